@@ -1038,7 +1038,8 @@ record_matrix_operator_impl_reference_reference!(impl Sub for RecordMatrix { fn 
 fn record_scalar_product<'l, 'r, T, S1, S2>(
     left_iter: S1,
     right_iter: S2,
-    history: Option<&WengertList<T>>,
+    left_history: Option<&WengertList<T>>,
+    right_history: Option<&WengertList<T>>,
 ) -> (T, Index)
 where
     T: Numeric + Primitive,
@@ -1048,6 +1049,11 @@ where
     S1: Iterator<Item = &'l (T, Index)>,
     S2: Iterator<Item = &'r (T, Index)>,
 {
+    let history = match (left_history, right_history) {
+        (None, None) => None,
+        (Some(history), _) => Some(history),
+        (_, Some(history)) => Some(history),
+    };
     match history {
         None => (
             crate::tensors::operations::scalar_product::<T, _, _>(
@@ -1061,15 +1067,25 @@ where
                 .zip(right_iter)
                 .map(|((x, x_index), (y, y_index))| {
                     let z = Multiplication::<T>::function(x.clone(), y.clone());
-                    (
-                        z,
-                        history.append_binary(
+                    // Only sides which have a history are on the WengertList, the index of
+                    // a constant is meaningless and must not be recorded as a parent
+                    let index = match (left_history, right_history) {
+                        (Some(_), None) => history.append_unary(
+                            *x_index,
+                            Multiplication::<T>::d_function_dx(x.clone(), y.clone()),
+                        ),
+                        (None, Some(_)) => history.append_unary(
+                            *y_index,
+                            Multiplication::<T>::d_function_dy(x.clone(), y.clone()),
+                        ),
+                        _ => history.append_binary(
                             *x_index,
                             Multiplication::<T>::d_function_dx(x.clone(), y.clone()),
                             *y_index,
                             Multiplication::<T>::d_function_dy(x.clone(), y.clone()),
                         ),
-                    )
+                    };
+                    (z, index)
                 });
             products
                 .reduce(|(x, x_index), (y, y_index)| {
@@ -1148,7 +1164,8 @@ where
         *x = record_scalar_product::<T, _, _>(
             TensorReferenceIterator::from(&left),
             TensorReferenceIterator::from(&right),
-            history,
+            lhs.history,
+            rhs.history,
         )
     }
     RecordTensor::from_existing(history, TensorView::from(tensor))
@@ -1299,7 +1316,7 @@ where
         // Select the j'th column in the right tensor to give us a vector
         let right = ColumnReferenceIterator::from(rhs, j);
         // Since we checked earlier that we have MxN * NxL these two vectors have the same length.
-        *x = record_scalar_product::<T, _, _>(left, right, history);
+        *x = record_scalar_product::<T, _, _>(left, right, lhs.history, rhs.history);
     }
     RecordMatrix::from_existing(history, MatrixView::from(result))
 }
